@@ -169,6 +169,8 @@ class C06(Prop):
     required_labels = {'quick': ['kind=grid', 'kind=frac', 'kind=gen', 'kind=hashseed', 'nontrivial=True'],
                        'thorough': ['kind=grid', 'kind=frac', 'kind=gen', 'kind=hashseed', 'nontrivial=True']}
 
+    fuzz = {'thorough': {'runs': 3000, 'max_time': 60, 'procs': 4}}
+
     def strategy(self, tier):
         return _case()
 
